@@ -60,6 +60,7 @@ type c03Shape struct {
 	Late    bool // the last application middleware and the action are installed only after the application has served requests
 	Swap    bool // the application first serves with as many do-nothing middleware, which Handlers() then replaces by the real ones
 	Info    bool `json:",omitempty"` // handlers that write send an informational status (100+position) instead of 201+position
+	Sig     int  `json:",omitempty"` // >0: handlers that return nothing use, by position, the other handler types (func(http.ResponseWriter, *http.Request), http.HandlerFunc, a reflectively invoked func(Context, *http.Request)), shifted by Sig
 	Head    bool `json:",omitempty"` // AutoHead is on and the request is a HEAD request (served by the chain registered alongside the GET route)
 }
 
@@ -72,7 +73,7 @@ func (s c03Shape) n() int {
 }
 
 func (s c03Shape) String() string {
-	return fmt.Sprintf("mw=%d group=%d route=%d action=%v flat=%v late=%v swap=%v autohead=%v informational-statuses=%v", s.M, s.G, s.R, s.Action, s.Flat, s.Late, s.Swap, s.Head, s.Info)
+	return fmt.Sprintf("mw=%d group=%d route=%d action=%v flat=%v late=%v swap=%v autohead=%v informational-statuses=%v handler-types=%d", s.M, s.G, s.R, s.Action, s.Flat, s.Late, s.Swap, s.Head, s.Info, s.Sig)
 }
 
 type c03Ev struct {
@@ -88,6 +89,8 @@ type c03World struct {
 	path   string
 	method string
 	base   int // status written by position i is base+i
+	sig    int
+	cur    flamego.Context // the request's context, noted by an untraced first middleware (for handler types that are not handed one)
 	prog   []c03Beh
 	trace  []c03Ev
 	cancel gocontext.CancelFunc
@@ -131,6 +134,16 @@ func (w *c03World) mk(i int, returnsString bool) flamego.Handler {
 	if returnsString {
 		return func(c flamego.Context) string { return w.body(i, c) }
 	}
+	if w.sig > 0 {
+		switch (i + w.sig) % 4 {
+		case 1:
+			return func(rw http.ResponseWriter, req *http.Request) { w.body(i, w.cur) }
+		case 2:
+			return http.HandlerFunc(func(rw http.ResponseWriter, req *http.Request) { w.body(i, w.cur) })
+		case 3:
+			return func(c flamego.Context, req *http.Request) { w.body(i, c) }
+		}
+	}
 	return func(c flamego.Context) { w.body(i, c) }
 }
 
@@ -138,6 +151,10 @@ func c03Build(s c03Shape, strMask int) *c03World {
 	w := &c03World{f: flamego.NewWithLogger(io.Discard), method: "GET", base: 201}
 	if s.Info {
 		w.base = 100
+	}
+	if s.Sig > 0 {
+		w.sig = s.Sig
+		w.f.Use(func(c flamego.Context) { w.cur = c }) // untraced: writes nothing, returns, the chain goes on
 	}
 	if s.Head {
 		w.f.AutoHead(true)
@@ -456,6 +473,7 @@ func c03Shapes(maxN int, thorough bool) []c03Shape {
 						out = append(out, c03Shape{M: m, G: g, R: r, Action: act, Swap: true})
 					}
 					if thorough || n <= 3 {
+						out = append(out, c03Shape{M: m, G: g, R: r, Action: act, Sig: 1}, c03Shape{M: m, G: g, R: r, Action: act, Sig: 2})
 						out = append(out, c03Shape{M: m, G: g, R: r, Action: act, Info: true})
 						out = append(out, c03Shape{M: m, G: g, R: r, Action: act, Head: true})
 						if g >= 2 {
@@ -470,7 +488,7 @@ func c03Shapes(maxN int, thorough bool) []c03Shape {
 }
 
 func c03Run(r *core.Run) {
-	r.Rule = "engine E: every handler program = stack shape (app middleware / nested group handlers / route handlers / optional action) x one behaviour per position (action string over {Next, write, cancel} + terminal {return nothing, return \"\", return a string, panic}); each program is one request on a real Flame; the recorded event trace must be accepted by the trace automaton (chain order, at most once, none skipped, onion nesting, automatic advance iff nothing written and not cancelled, Next() completeness) and the response must equal what the trace implies; non-trivial = program with at least one Next() and at least one write/cancel/panic/returned string"
+	r.Rule = "engine E: every handler program = stack shape (app middleware / nested group handlers / route handlers / optional action; handler types func(Context), func(Context) string, func(ResponseWriter, *Request), http.HandlerFunc, func(Context, *Request)) x one behaviour per position (action string over {Next, write, cancel} + terminal {return nothing, return \"\", return a string, panic}); each program is one request on a real Flame; the recorded event trace must be accepted by the trace automaton (chain order, at most once, none skipped, onion nesting, automatic advance iff nothing written and not cancelled, Next() completeness) and the response must equal what the trace implies; non-trivial = program with at least one Next() and at least one write/cancel/panic/returned string"
 	r.Assumptions = []string{"an explicit Next() after a write or after a cancel may start the next handler or not (the statement leaves it open); everything else is exact", "no Recovery in the stack (C15 covers it)"}
 	type plan struct {
 		minN, maxN int
@@ -513,7 +531,7 @@ func c03Run(r *core.Run) {
 		}
 		var jobs []job
 		for _, s := range shapes {
-			base := !(s.Flat || s.Late || s.Swap || s.Head || s.Info)
+			base := !(s.Flat || s.Late || s.Swap || s.Head || s.Info || s.Sig > 0)
 			if s.n() < pl.minN || (pl.which == 1 && !base) || (pl.which == 2 && base) {
 				continue
 			}
